@@ -331,11 +331,11 @@ class AppEnv:
             models.db.session.remove()
 
 
-    def add_dotted_names_stream(self, directory: str = 'dots') -> None:
+    def add_dotted_names_stream(self, directory: str = 'dots') -> int:
         """A stream whose media file names contain dots (uploads keep the dots of a file name:
         "promo_1.5mbps_v1.mp4" is stored as media file "promo_1.5mbps_v1")."""
         files = {'dot_1.5m_v1': FIXTURES / 'bbb' / 'bbb_v7.mp4', 'dot-a.b_a1': FIXTURES / 'bbb' / 'bbb_a1.mp4'}
-        self.add_stream(directory, title='Dotted media names', files=files)
+        return self.add_stream(directory, title='Dotted media names', files=files)
 
 
 def parse_utc(text: str) -> _real_datetime.datetime:
